@@ -42,8 +42,8 @@ CHECKS = {
    text="Exploration: per delivered segment the bytes allocated while handling it and the heap bytes live after it are compared with fixed bounds (live <= connections x 512 KiB + 1 MiB; per packet <= 4 MiB + 64 x packet length; median of a connection's last tenth <= 2 x first tenth + 2 MiB). Quick: up to 2000 segments per connection; thorough: up to 100000. Capacities 1/4/64/1000, 1..12 parallel connections, segment sizes 1..1460.",
    note="Constants are fixed in c11.rs and deliberately loose; they were revised (from 128 KiB / 256 KiB, then 2 MiB) after measuring the parsers' constant factor (17x..21x the buffered bytes in temporaries) and per-segment bookkeeping, before the repair was written - see DESIGN. Work is measured as bytes allocated, a proxy for time that is deterministic; CPU time is not measured.",
    design="4/C11"),
- "C15": dict(engine="netsim", technique="deterministic simulation: seeded traces of well-formed and malformed frames (Ethernet/raw/NULL 0x1e/AF loopback framing, IPv4 IHL 0..15, total-length/protocol/ethertype/version lies, truncation) x generated FilterConfigs; filtered run vs unfiltered run on the admitted sub-trace at the same simulated times",
-   text="Exploration: filters are generated from the trace's own endpoints so that each sub-filter matches about half of them; all four analyzers (the unified one through its real packet loop). Checked per packet: nothing is reported for endpoints the filter rejects (endpoints as the analyzer's own parser assigns them), and every admitted packet yields exactly what the unfiltered analyzer yields on the admitted sub-trace.",
+ "C15": dict(engine="netsim+poolsim", technique="deterministic simulation: seeded traces of well-formed and malformed frames (Ethernet/raw/NULL 0x1e/AF loopback framing, IPv4 IHL 0..15, total-length/protocol/ethertype/version lies, truncation) x generated FilterConfigs; filtered run vs unfiltered run on the admitted sub-trace at the same simulated times",
+   text="Exploration: filters are generated from the trace's own endpoints so that each sub-filter matches about half of them; all four analyzers (the unified one through its real packet loop); poolsim part: a real worker pool created with the filter, under shuttle schedules, against the unfiltered sequential analyzer on the admitted sub-trace. Checked per packet: nothing is reported for endpoints the filter rejects (endpoints as the analyzer's own parser assigns them), and every admitted packet yields exactly what the unfiltered analyzer yields on the admitted sub-trace.",
    note="admit(p) is the repository's own FilterConfig::should_process applied to the analyzer's view of the packet (C14, the predicate's truth table, is not claimed). Packets whose endpoints the analyzer does not define (non-TCP, unparseable) are kept in the sub-trace (fail-open, as documented).",
    design="4/C15"),
  "C17": dict(engine="netsim", technique="deterministic simulation: seeded + enumerated chunkings of generated HTTP/2 connection starts through the incremental extractor; history oracle + reference model of the Akamai format computed from the generator's structure",
